@@ -33,6 +33,12 @@ func init() {
 			g23BreakOnlyWithoutProgress(c.Repo, c.Rep)
 			g31NoPackageSkipped(c.Repo, c.Rep)
 			g30GeneratorStateless(c.Repo, c.Rep)
+			// every call is bound to the function generated for it: the naming table must accept a call that the function of
+			// that name serves (G7), and dispatch by longest prefix uses the prefixes of this run (G8)
+			runG7(c.Repo, c.Rep)
+			if mainFn := c.Repo.lookup("main.main"); mainFn != nil {
+				g8Prefix(c.Repo, c.Rep, mainFn)
+			}
 			// which operator or helper is emitted for a component is decided by these predicates: accepting a type Go cannot
 			// compare or copy gives text that does not type-check
 			runG9(c, "equal.canEqual", "deepcopy.canCopy", "contains.canEqual", "derive.IsComparable")
